@@ -23,6 +23,21 @@ class Store:
         return self.kind in ("elem", "aug", "mutcall")
 
 
+def _literal_names(fi: FuncInfo, e: ast.AST) -> List[str]:
+    """the attribute names a setattr call can write: a string literal, or the loop variable of an enclosing
+    `for v in (<string literals>)`"""
+    if isinstance(e, ast.Constant) and isinstance(e.value, str):
+        return [e.value]
+    if isinstance(e, ast.Name):
+        for loop in ast.walk(fi.node):
+            if isinstance(loop, ast.For) and isinstance(loop.target, ast.Name) and loop.target.id == e.id \
+                    and isinstance(loop.iter, (ast.Tuple, ast.List)) and loop.iter.elts \
+                    and all(isinstance(x, ast.Constant) and isinstance(x.value, str) for x in loop.iter.elts) \
+                    and any(sub is e for b in loop.body for sub in ast.walk(b)):
+                return [x.value for x in loop.iter.elts]
+    return []
+
+
 def _targets(node: ast.AST):
     if isinstance(node, ast.Assign):
         for t in node.targets:
@@ -99,8 +114,16 @@ def stores(prog: Program, fi: FuncInfo, roles: Optional[Roles] = None, include_n
                         for k in n.keywords):
                     out.append(Store("mutcall", n, recv, None, {p + "[]" for p in P(recv)}, norm(n)))
             elif isinstance(f, ast.Name) and f.id == "setattr" and len(n.args) >= 2:
-                paths = {p + ".*" for p in P(n.args[0])}
-                out.append(Store("mutcall", n, n.args[0], "*", paths, norm(n)))
+                names = _literal_names(fi, n.args[1])
+                if names and len(n.args) >= 3:
+                    # setattr(obj, "field", v) / for field in ("a", "b"): setattr(obj, field, v)  ==  obj.a = v; obj.b = v
+                    if not hasattr(n, "value"):
+                        n.value = n.args[2]          # lets users of Store.node read the stored value as for an Assign
+                    for fld in names:
+                        out.append(Store("attr", n, n.args[0], fld, {b + "." + fld for b in P(n.args[0])}, f"{norm(n.args[0])}.{fld} = {norm(n.args[2])}"))
+                else:
+                    paths = {p + ".*" for p in P(n.args[0])}
+                    out.append(Store("mutcall", n, n.args[0], "*", paths, norm(n)))
             elif isinstance(f, ast.Name) and f.id == "delattr" and n.args:
                 paths = {p + ".*" for p in P(n.args[0])}
                 out.append(Store("mutcall", n, n.args[0], "*", paths, norm(n)))
